@@ -93,6 +93,14 @@ UdqAssign(q, v) == AddKw([kw |-> "UDQ", q |-> q, v |-> v]) /\ UNCHANGED st
 Tuning(v) == AddKw([kw |-> "TUNING", v |-> v]) /\ UNCHANGED st
 Nextstep(v) == AddKw([kw |-> "NEXTSTEP", v |-> v]) /\ UNCHANGED st
 Rptrst(v) == AddKw([kw |-> "RPTRST", v |-> v]) /\ UNCHANGED st
+\* further keywords with a handler in the library (rendered from the table in checks/schedgen.py, two variants each):
+\* they need no more than an existing well / group
+MiscWellKw == {"COMPORD", "CSKIN", "WDFAC", "WINJCLN", "WLIFTOPT", "WPAVEDEP", "WRFT", "WRFTPLT", "WVFPDP", "WVFPEXP", "WWPAVE"}
+MiscGroupKw == {"GCONINJG", "GCONSALE", "GCONSUMP", "GECON", "GLIFTOPT", "GPMAINT"}
+MiscGlobalKw == {"DRSDT", "DRSDTR", "DRVDT", "FBHPDEF", "GUIDERAT", "MESSAGES", "MULTPV", "MULTZ", "NETBALAN", "NUPCOL", "RPTONLY", "RPTSCHED", "SAVE", "SUMTHIN", "VAPPARS", "WHISTCTL", "WPAVE", "WSEGITER"}
+MiscWell(n, w, v) == HasWell(w) /\ AddKw([kw |-> "MISC", name |-> n, well |-> w, v |-> v]) /\ UNCHANGED st
+MiscGroup(n, g, v) == g \in st.groups \ {"FIELD"} /\ AddKw([kw |-> "MISC", name |-> n, group |-> g, v |-> v]) /\ UNCHANGED st
+MiscGlobal(n, v) == AddKw([kw |-> "MISC", name |-> n, v |-> v]) /\ UNCHANGED st
 \* ACTIONX definition: the body is a sequence of keywords from the alphabet in which the well may be "?"
 \* (the wells matched by the condition); bodies only address existing wells / the match set
 ActionBodies(ws) ==
@@ -102,6 +110,7 @@ ActionBodies(ws) ==
     \cup { <<[kw |-> "WEFAC", well |-> w, f |-> 2], [kw |-> "WELOPEN", well |-> w2, status |-> "SHUT", conn |-> <<>>]>> : w \in W, w2 \in W }
     \cup { <<[kw |-> "WCONPROD", well |-> w, status |-> "OPEN", cmode |-> "ORAT", orat |-> 120, bhp |-> 60]>> : w \in ws }
     \cup { <<[kw |-> "GCONPROD", group |-> "G1", orat |-> 700]>>, <<[kw |-> "NEXTSTEP", v |-> 3]>> }
+    \cup { <<[kw |-> "WELPI", well |-> w, v |-> v]>> : w \in W, v \in {5, 9} }       \* (applied with the simulator's current PI of the well)
 Actionx(name, body) ==
     /\ \A n \in 1..Len(body) : ("well" \in DOMAIN body[n] /\ body[n].well # "?") =>
             (HasWell(body[n].well) /\ st.wells[body[n].well].conns # {})
@@ -139,6 +148,9 @@ SNext ==
          \/ \E v \in {1, 2} : Tuning(v)
          \/ \E v \in {3, 5} : Nextstep(v)
          \/ \E v \in {1, 2} : Rptrst(v)
+         \/ \E n \in MiscWellKw, w \in WellNames, v \in {1, 2} : MiscWell(n, w, v)
+         \/ \E n \in MiscGroupKw, g \in GroupNames, v \in {1, 2} : MiscGroup(n, g, v)
+         \/ \E n \in MiscGlobalKw, v \in {1, 2} : MiscGlobal(n, v)
          \/ \E a \in {"ACT1", "ACT2"} : \E b \in ActionBodies(DOMAIN st.wells) : Actionx(a, b) )
 SSpec == SInit /\ [][SNext]_svars
 \* design-level sanity of the generator: connections and controls only for existing wells
